@@ -26,6 +26,7 @@ class Interp:
         self.stubs = stubs or {}        # callee name -> fn(list of int args) -> int
         self.fields = fields or {}      # field name -> int (value of any X->field / X.field)
         self.max_steps = max_steps
+        self.record_calls = False       # evaluate stubbed calls that appear as statements too
 
     def call(self, f, args, depth=0):
         if depth > 12:
@@ -53,6 +54,15 @@ class Interp:
                     if ln["k"] != "ref":
                         raise Unsupported("store to memory in %s" % f.name)
                     env[ln["name"]] = self.ev(f, n["r"], env, depth)
+                elif n["k"] == "bin" and n["op"] in ("|=", "&=", "+=", "-=", "^="):
+                    ln = f.sn(n["l"])
+                    if ln["k"] != "ref" or ln["name"] not in env:
+                        raise Unsupported("compound store to memory in %s" % f.name)
+                    a, b2 = env[ln["name"]], self.ev(f, n["r"], env, depth)
+                    env[ln["name"]] = wrap({"|=": a | b2, "&=": a & b2, "+=": a + b2, "-=": a - b2, "^=": a ^ b2}[n["op"]], n.get("sz"), n.get("uns"))
+                elif n["k"] == "call" and self.record_calls and (n.get("callee") in self.stubs):
+                    # a call evaluated for its effect (stubs may record their arguments)
+                    self.stubs[n["callee"]]([self._arg(f, a, env, depth) for a in n["args"]])
             if blk.noreturn:
                 raise Unsupported("abort reached in %s" % f.name)
             if b == f.exit:
